@@ -356,6 +356,14 @@ func (in *c08Inst) do(op string) string {
 		return in.q(fmt.Sprintf(`SetRowAttrs(f, %s, a=1, b="s", c=true)`, in.row(0)))
 	case "cattr":
 		return in.q(fmt.Sprintf(`SetColumnAttrs(%s, x=1.5, y="t")`, in.col(0)))
+	case "rattrDel":
+		// a null-only update: removes one attribute and leaves the others of the same id in place
+		if cf.Type == "int" || cf.Type == "bool" {
+			return in.q(fmt.Sprintf(`SetColumnAttrs(%s, n=null)`, in.col(1)))
+		}
+		return in.q(fmt.Sprintf(`SetRowAttrs(f, %s, b=null)`, in.row(0)))
+	case "cattrDel":
+		return in.q(fmt.Sprintf(`SetColumnAttrs(%s, y=null)`, in.col(0)))
 	}
 	panic("c08: unknown op " + op)
 }
@@ -593,7 +601,7 @@ func c08LabelClass(label string) string {
 // cost of a known defect that fires on most histories of a configuration)
 var c08Confirmed = map[string]bool{}
 
-var c08Ops = []string{"w1", "w2", "w3", "clr", "imp", "rattr", "cattr", "delF", "mkF", "mkG", "delG", "delI", "mkI"}
+var c08Ops = []string{"w1", "w2", "w3", "clr", "imp", "rattr", "cattr", "rattrDel", "cattrDel", "delF", "mkF", "mkG", "delG", "delI", "mkI"}
 
 // distinct pre-restart observation vectors met by this worker (evidence: shows the histories reach different
 // states, not just that the verdict is the same)
